@@ -3,12 +3,13 @@ pub mod c03;
 pub mod c04;
 pub mod c06;
 pub mod c11;
+pub mod c18;
 pub mod histchecks;
 
 use crate::frame::CheckDef;
 
 pub fn all() -> Vec<CheckDef> {
-    let mut v = vec![c02::def(), c03::def(), c04::def(), c06::def(), c11::def()];
+    let mut v = vec![c02::def(), c03::def(), c04::def(), c06::def(), c11::def(), c18::def()];
     v.extend(histchecks::defs());
     v.sort_by_key(|d| d.property);
     v
